@@ -44,6 +44,9 @@ type C14 struct {
 	WrongPass  bool   `json:"client_has_wrong_password"`
 	Netconf    bool   `json:"netconf"`
 	Cell       int    `json:"cell"`
+	// Prior, when set, is the state of the same known-hosts file during an earlier connection of
+	// the same process (strict checking on); the file is rewritten before the connection judged
+	Prior string `json:"prior_known_hosts,omitempty"`
 }
 
 func genC14(seed uint64, run int, tier string) Scenario {
@@ -65,6 +68,9 @@ func genC14(seed uint64, run int, tier string) Scenario {
 	sc.WrongPass = r.IntN(8) == 0
 	sc.Netconf = r.IntN(4) == 0
 	sc.Class = "standard"
+	if sc.KnownHosts != "none" && r.IntN(2) == 0 {
+		sc.Prior = pick(r, "has", "other", "empty", "other-host")
+	}
 
 	return sc
 }
@@ -98,17 +104,58 @@ func runC14(env *Env, s Scenario) {
 	_ = os.WriteFile(keyPath, clientPEM, 0o600)
 	addr := fmt.Sprintf("%s:%d", sc.Host, sc.Port)
 	khPath := filepath.Join(dir, "known_hosts")
-	switch sc.KnownHosts {
-	case "has":
-		_ = os.WriteFile(khPath, []byte(knownhosts.Line([]string{knownhosts.Normalize(addr)}, hostKey.PublicKey())+"\n"), 0o600)
-	case "other":
-		_ = os.WriteFile(khPath, []byte(knownhosts.Line([]string{knownhosts.Normalize(addr)}, otherKey.PublicKey())+"\n"), 0o600)
-	case "other-host":
-		// the right key, but recorded for a different host
-		_ = os.WriteFile(khPath, []byte(knownhosts.Line([]string{knownhosts.Normalize("elsewhere.example.org:22")}, hostKey.PublicKey())+"\n"), 0o600)
-	case "empty":
-		_ = os.WriteFile(khPath, nil, 0o600)
+	writeKH := func(state string) {
+		switch state {
+		case "has":
+			_ = os.WriteFile(khPath, []byte(knownhosts.Line([]string{knownhosts.Normalize(addr)}, hostKey.PublicKey())+"\n"), 0o600)
+		case "other":
+			_ = os.WriteFile(khPath, []byte(knownhosts.Line([]string{knownhosts.Normalize(addr)}, otherKey.PublicKey())+"\n"), 0o600)
+		case "other-host":
+			// the right key, but recorded for a different host
+			_ = os.WriteFile(khPath, []byte(knownhosts.Line([]string{knownhosts.Normalize("elsewhere.example.org:22")}, hostKey.PublicKey())+"\n"), 0o600)
+		case "empty":
+			_ = os.WriteFile(khPath, nil, 0o600)
+		}
 	}
+	if sc.Prior != "" {
+		// an earlier connection of this process used the same file with other content
+		writeKH(sc.Prior)
+		psrv := &peer.SSHServer{HostKey: hostKey, Users: map[string]string{sc.User: sc.Password}, AuthKeys: map[string]ssh.PublicKey{}, Done: make(chan struct{})}
+		psrv.Peer = peer.NewCLI([]*peer.Mode{{Name: "exec", Prompt: "srv#"}}, "exec", 1)
+		pc, ps := simnet.Pipe(k, simnet.NetPlan{SegMode: "whole"}, simnet.NetPlan{SegMode: "whole"}, false)
+		pc.Addr = &net.TCPAddr{IP: net.IPv4(127, 0, 0, 1), Port: 40001}
+		ps.Addr = &net.TCPAddr{IP: net.IPv4(127, 0, 0, 1), Port: sc.Port}
+		simhook.DialFn = func(network, a string) net.Conn { return pc }
+		go psrv.Serve(ps)
+		pli, _ := logging.NewInstance()
+		ptr, err := transport.NewTransport(pli, sc.Host, transport.StandardTransport, options.WithPort(sc.Port), options.WithAuthUsername(sc.User),
+			options.WithTimeoutSocket(5*time.Second), options.WithAuthPassword(sc.Password), options.WithSSHKnownHostsFile(khPath))
+		if err != nil {
+			env.Res.HarnessError = "NewTransport (prior): " + err.Error()
+
+			return
+		}
+		var perr error
+		pdone := env.Go("user", func() {
+			if env.Call("Open(prior)", func() { perr = ptr.Open() }) && perr == nil {
+				env.Call("Close(prior)", func() { _ = ptr.Close(false) })
+			}
+			_ = pc.Close()
+		})
+		pout := k.Run(pdone, 60*time.Second, 10*time.Millisecond)
+		_ = pc.Close()
+		if pout.Hang {
+			env.Fail("hang", "", "prior ssh open/close did not finish\n%s", pout.HangDump)
+
+			return
+		}
+		if (perr == nil) != (sc.Prior == "has") {
+			env.Fail("prior-connection-verdict", "", "prior connection (strict, known-hosts=%s): Open returned %v", sc.Prior, perr)
+		}
+		_ = os.Remove(khPath)
+		env.Probe("known-hosts-rewritten-between-connections")
+	}
+	writeKH(sc.KnownHosts)
 	srv := &peer.SSHServer{HostKey: hostKey, Users: map[string]string{}, AuthKeys: map[string]ssh.PublicKey{}, Done: make(chan struct{})}
 	if sc.SrvPass {
 		srv.Users[sc.User] = sc.Password
@@ -183,7 +230,7 @@ func runC14(env *Env, s Scenario) {
 	env.Finish(out)
 	_ = client.Close()
 	user, passwords, keys, requests, _, hsErr := srv.Snapshot()
-	env.Res.Shape = fmt.Sprintf("standard strict=%v kh=%s auth=%s srvpass=%v srvkey=%v wrongpass=%v netconf=%v", sc.Strict, sc.KnownHosts, sc.Auth, sc.SrvPass, sc.SrvKey, sc.WrongPass, sc.Netconf)
+	env.Res.Shape = fmt.Sprintf("standard strict=%v kh=%s prior=%s auth=%s srvpass=%v srvkey=%v wrongpass=%v netconf=%v", sc.Strict, sc.KnownHosts, sc.Prior, sc.Auth, sc.SrvPass, sc.SrvKey, sc.WrongPass, sc.Netconf)
 	env.Res.SchedDigest = fmt.Sprintf("%016x", kernel.HashString(env.Res.Shape+sc.Host+sc.User))
 	env.Res.Nontrivial = true
 	if sc.KnownHosts == "other" || sc.KnownHosts == "other-host" {
